@@ -168,10 +168,26 @@ def run(ctx):
     for _ in range(6000 if ctx.thorough else 1000):
         correspond(H.wild_program(rng), "adversarial")
 
-    # -- oracle stream on the same programs, scripted outcomes
-    for prog in progs:
+    # -- oracle stream on the same programs, scripted outcomes; the Lean HostSem against the direct
+    #    Python interpreter on all of them, the Lean ProtoExec against the real Executor on every 4th
+    def cross(fn, name, prog, outs):
+        res.evaluations += 1
+        st, det = fn(drv, prog, outs)
+        res.count(name + ":" + st)
+        if st == "differ":
+            small = prog
+            if len(res.disagreements) < 3:
+                small = H.shrink(prog, lambda q: fn(drv, q, outs)[0] == "differ", 150, 15)
+                det = fn(drv, small, outs)[1]
+            res.disagreements.append({"stream": "sdk." + name, "input": {"program": small, "outcomes": outs},
+                                      "model": det, "code": "see model field"})
+
+    for i, prog in enumerate(progs):
         outs = [rng.randrange(2) for _ in range(64)]
         check_oracle(prog, outs, "random")
+        cross(H.cross_hsem, "hostsem-vs-direct", prog, outs)
+        if i % 4 == 0:
+            cross(H.cross_exec, "protoexec-vs-executor", prog, outs)
 
     # -- small programs: every flush placement, both streams
     nSmall = 500 if ctx.thorough else 70
